@@ -18,11 +18,17 @@ def spell(rnd, s):
     return s
 
 
+VARIANTS = {'privatef': ['private="set-cookie"', 'private=set-cookie', 'private="unterminated', 'private=', 'private="a, b"', 'private=""'],
+            'nocachef': ['no-cache="set-cookie"', 'no-cache=set-cookie', 'no-cache="a, b"'],
+            'nostore': ['no-store', 'no-store=1', 'no-store="x"'],
+            'private': ['private', 'private ', 'PRIVATE']}
+
+
 def scenario(c, rnd):
     p = c['par']
     dirs = list(p['dirs'])
     rnd.shuffle(dirs)
-    toks = [spell(rnd, DIRTXT[d]) for d in dirs]
+    toks = [spell(rnd, rnd.choice(VARIANTS[d]) if d in VARIANTS and rnd.random() < 0.6 else DIRTXT[d]) for d in dirs]
     if toks and rnd.random() < 0.2:
         toks.append(toks[0])         # duplicate directive
     oh = []
